@@ -340,7 +340,23 @@ def check_overflow(ctx, db):
     ctx.check(ok, 'R-MINMAX', 'link_holes/min_point', f.loc(), 'each hole is attached at its lexicographically smallest vertex (running minimum by point_less)')
     check_ray_hits(ctx, db, f)
     pl = db.fn('gdstk::point_less')
-    ctx.check(norm(pl.body.c[0].child('value').text(clone.Renamer(pl, params_by_name=True))) == '(($p1.X < $p2.X) || (($p1.X == $p2.X) && ($p1.Y < $p2.Y)))', 'R-SHAPE', 'point_less/lexicographic', pl.loc(), 'point_less is the strict lexicographic order on (X, Y)')
+    # interpreted (sa/minieval) on all 81 pairs of points over {0, 1, 2}^2 - every ordering of the two abscissae and of the two ordinates
+    from .. import minieval as _M
+    bad = None
+    for a_ in range(9):
+        for b_ in range(9):
+            pa, pb = (a_ // 3, a_ % 3), (b_ // 3, b_ % 3)
+            mi_ = _M.Mini(db, budget=2000)
+            mi_.obj_store = True
+            try:
+                mi_.run(pl.body, {pl.params[0]['n']: _M.Obj(X=pa[0], Y=pa[1]), pl.params[1]['n']: _M.Obj(X=pb[0], Y=pb[1])})
+                got_ = None
+            except _M.Return as r_:
+                got_ = r_.v
+            if got_ is None or bool(got_) != (pa < pb):
+                bad = bad or 'point_less(%s, %s) returns %s' % (pa, pb, got_)
+    ctx.explored['valuations'] += 81
+    ctx.check(bad is None, 'R-SHAPE', 'point_less/lexicographic', pl.loc(), 'point_less is the strict lexicographic order on (X, Y) (all 81 pairs over a 3 x 3 grid)', bad)
 
 
 def _ival(e, env, fn):
